@@ -20,6 +20,7 @@ import (
 	"sort"
 	"strings"
 	"sync"
+	"sync/atomic"
 	"syscall"
 	"time"
 
@@ -539,6 +540,9 @@ func laneConc(c *ev.Ctx, id string, seed int64, race bool) {
 	}
 	issued := map[string][]string{}
 	unknown := false
+	// a request without an answer within 25 s stops the whole workload (a wedged account path would otherwise cost
+	// one watchdog per remaining request)
+	var wedged atomic.Bool
 	var wg sync.WaitGroup
 	for ci := 0; ci < 8; ci++ {
 		wg.Add(1)
@@ -546,7 +550,8 @@ func laneConc(c *ev.Ctx, id string, seed int64, race bool) {
 			defer wg.Done()
 			r := rand.New(rand.NewSource(seed*977 + int64(ci)))
 			cl := env.Client(0)
-			for n := 0; n < 14; n++ {
+			cl.DefaultWatchdog = 25 * time.Second
+			for n := 0; n < 14 && !wedged.Load(); n++ {
 				ak := keys[r.Intn(len(keys))]
 				var h hop
 				h.Who = fmt.Sprintf("c%d", ci)
@@ -593,6 +598,9 @@ func laneConc(c *ev.Ctx, id string, seed int64, race bool) {
 					h.Ret = now()
 					h.Out = cOut{ok}
 				}
+				if resp.Err != nil && strings.Contains(resp.Err.Error(), "timeout") {
+					wedged.Store(true)
+				}
 				mu.Lock()
 				if resp.Err != nil || resp.Status >= 500 {
 					unknown = true
@@ -605,6 +613,22 @@ func laneConc(c *ev.Ctx, id string, seed int64, race bool) {
 	wg.Wait()
 	if i, cr := env.Dead(); cr != nil {
 		c.Violation("conc:gateway-died:"+cr.TopFrame, id, map[string]any{"gateway": i, "crash": cr.Message})
+		return
+	}
+	if wedged.Load() {
+		// account requests stopped being answered. Is the gateway as a whole stuck (machine load, inconclusive)
+		// or only the account path, while a request that needs no account lookup is still served?
+		pc := env.Client(0)
+		pc.DefaultWatchdog = 25 * time.Second
+		probe := pc.Do(&s3c.Req{Method: "GET", Path: "/", FreshConn: true})
+		again := pc.Admin("/list-users", "", nil)
+		c.Eval(1)
+		if probe.Err == nil && again.Err != nil {
+			c.Violation("conc:account-requests-never-answered", id, map[string]any{"probe_without_account_lookup": probe.String(),
+				"admin_list_users": again.String(), "explain": "admin mutations / lookups got no answer within 25 s and still get none, while a root request is served: the account path is wedged"})
+		} else {
+			c.Inconclusive("a request timed out under concurrency but the gateway answers again")
+		}
 		return
 	}
 	// final reads: list-users gives the final secret of every key
